@@ -4,7 +4,11 @@ open Gms.Proto Gms.ShowCreate
 
 /-! Line-protocol driver for C22: prints the CREATE TABLE text of a schema.
 
-payload: `(table name (cols (name ty nn ai dflt comment)…) (pk name…) (keys (u name (col…) comment)…) comment)`
+payload: `(table name (cols (name ty nn ai dflt comment cs coll)…) (pk name…) (keys (u name (col…) comment)…) comment (opts cs coll))`
+where `cs` / `coll` are the CHARACTER SET / COLLATE names as the CREATE TABLE statement gave them (`-` = absent).
+The driver resolves them with the model's reader (`resolveColl`: the table options against the engine default,
+each text column against the table collation) and prints the resolved table; a statement whose COLLATE does not
+belong to its CHARACTER SET is `rejected`.
 observation: hex of the statement text -/
 
 def str? (s : Sexp) : Option Str := do
@@ -30,11 +34,19 @@ def parseDflt : Sexp → Option (Option Dflt)
   | .list [.atom "str", t] => do pure (some (.str (← str? t)))
   | _ => none
 
-def parseCol : Sexp → Option Col
-  | .list [n, ty, nn, ai, d, c] => do
-    pure { name := ← str? n, ty := ← parseTy ty, notNull := (← nn.nat?) == 1, autoInc := (← ai.nat?) == 1,
-           dflt := ← parseDflt d, comment := ← str? c }
+def optStr? : Sexp → Option (Option Str)
+  | .atom "-" => some none
+  | s => do pure (some (← str? s))
+
+/-- A column with its clauses as issued (resolved later, once the table collation is known). -/
+def parseCol : Sexp → Option (Col × CollSpec)
+  | .list [n, ty, nn, ai, d, c, cs, co] => do
+    pure ({ name := ← str? n, ty := ← parseTy ty, notNull := (← nn.nat?) == 1, autoInc := (← ai.nat?) == 1,
+            dflt := ← parseDflt d, comment := ← str? c }, { cs := ← optStr? cs, coll := ← optStr? co })
   | _ => none
+
+def resolveCol (tc : Coll) : Col × CollSpec → Option Col
+  | (c, s) => if c.ty.isText then do pure { c with coll := some (← resolveColl collTable tc s) } else some c
 
 def parseKey : Sexp → Option Key
   | .list [u, n, .list cols, c] => do
@@ -45,14 +57,29 @@ def hexS (s : Str) : String := hex (s.map fun c => UInt8.ofNat c.toNat)   -- the
 
 def handle (p : List Sexp) : String :=
   match p with
-  | [.list [.atom "table", n, .list (.atom "cols" :: cols), .list (.atom "pk" :: pk), .list (.atom "keys" :: keys), c]] =>
-    match str? n, cols.mapM parseCol, pk.mapM str?, keys.mapM parseKey, str? c with
-    | some n, some cols, some pk, some keys, some c =>
-      let t : Table := { name := n, cols := cols, pk := pk, keys := keys, comment := c }
-      -- `index_comment_unescaped` was repaired (`Gms.C22.index_comment_round_trip`): the Go text is the
-      -- Spec text (every comment escaped) on every case, there is no region any more
-      answer (hexS (showTable t))
-    | _, _, _, _, _ => answer "bad-case"
+  | [.list [.atom "table", n, .list (.atom "cols" :: cols), .list (.atom "pk" :: pk), .list (.atom "keys" :: keys), c,
+            .list [.atom "opts", tcs, tco]]] =>
+    match str? n, cols.mapM parseCol, pk.mapM str?, keys.mapM parseKey, str? c, optStr? tcs, optStr? tco with
+    | some n, some cols, some pk, some keys, some c, some tcs, some tco =>
+      match resolveColl collTable engineColl { cs := tcs, coll := tco } with
+      | none => answer "rejected"
+      | some tc =>
+        match cols.mapM (resolveCol tc) with
+        | none => answer "rejected"
+        | some cols =>
+          let t : Table := { name := n, cols := cols, pk := pk, keys := keys, comment := c, coll := tc }
+          -- `index_comment_unescaped` was repaired (`Gms.C22.index_comment_round_trip`): the Go text is the
+          -- Spec text (every comment escaped) on every case, there is no region any more
+          -- Where a text column's collation differs from the table's, more than one clause text is sound
+          -- (`Gms.C22.coll_round_trip` for the Go printer, `mysql_clause_round_trip` for MySQL's): the Spec —
+          -- the statement recreates the same object — does not determine the text (`?`); the property is then
+          -- decided on the engine by the object comparison of the harness, and a text that differs from the Go
+          -- printer model is reported as a broken correspondence, not as a failing input by itself.
+          let determined := cols.all fun c => match c.coll with
+            | some cc => cc.name == tc.name
+            | none => true
+          answer (hexS (showTable t)) (if determined then "=" else "?")
+    | _, _, _, _, _, _, _ => answer "bad-case"
   | [.list [.atom "object", _]] => answer "object"      -- views / triggers / procedures: oracle only
   | _ => answer "bad-case"
 
